@@ -37,6 +37,7 @@ MIRRORS = {
         ("c07", "r2_inputs", (), ALL, "prefilter and aligner see the same string and flags"),
         ("c07", "r3_windows", (), ALL, "the prefilter's windows cover every admissible occurrence"),
         ("c07", "r4_bounds", (), ALL, "no search window that overlaps the read is skipped"),
+        ("c07", "r5_word", (), ALL, "no k-mer is dropped on the way to the finder; over-long k-mers fall back to the always-true finder"),
         ("c08", "r1_coordinates", (), ALL, "indexed lookups consider every length that fits into the read"),
         ("c08", "r3_bestof", (), ALL, "the index keeps looking after a miss and prefers the better candidate"),
         ("c06", "r5_pickle", (), _has("Aligner", "Comparer", "KmerFinder"), "pickled aligners / prefilters (spawned workers) keep their parameters"),
@@ -71,12 +72,13 @@ MIRRORS = {
         ("c14", "r1_r2_header", (), _has("unrolled loop", "tail loop", "validity"), "an invalid quality character is rejected at every position"),
     ],
     "C15": [
+        ("c08", "r3_bestof", (), ALL, "with indexed barcodes the adapter whose name selects the file is the adapter of the best match"),
         ("c16", "single", (), lambda o: o.rule == "C16.R3", "the matches that select the output file are those of the orientation that was kept"),
         ("c16", "paired", (), lambda o: o.rule == "C16.R3", "paired: the matches that select the output files are those of the orientation that was kept"),
         ("c05", "wrapper_routing", ("C15.X",), ALL, "the R2 modifier records its matches on the R2 info (which selects the file)"),
     ],
     "C16": [
-        ("c17", "r1_writer", (), _has("InfoFileWriter"), "the info file is written in the orientation that was kept, applied once per read"),
+        ("c17", "r1_rows", (), _has("InfoFileWriter"), "the info file is written in the orientation that was kept, applied once per read"),
         ("c06", "r4_merges", (), _has("Statistics.__iadd__"), "the reverse-complemented count of every worker is added"),
     ],
     "C17": [
